@@ -153,7 +153,7 @@ fn table_run(this: &'static str, sess: &[TSess], ops: &[(usize, u8)]) -> Vec<Val
                     None => evs.push(ev("tb.commit_none", &[("node", json!(this)), ("c", json!(c))])),
                     Some((survives, losers)) => {
                         let ll: Vec<String> = losers.iter().map(|l| lab_of(&pid, *l)).collect();
-                        evs.push(ev("ns.commit", &[("node", json!(this)), ("c", json!(c)), ("d", json!(i64::from(survives))), ("losers", json!(ll))]));
+                        evs.push(ev("tb.commit", &[("node", json!(this)), ("c", json!(c)), ("d", json!(i64::from(survives))), ("losers", json!(ll))]));
                         if survives {
                             evs.push(ev("obs.authenticated", &[("node", json!(this)), ("c", json!(c))]));
                         }
@@ -163,7 +163,7 @@ fn table_run(this: &'static str, sess: &[TSess], ops: &[(usize, u8)]) -> Vec<Val
             3 => {
                 let p = pid[i].unwrap_or(1 << 40);
                 let el = st.is_elected(p);
-                evs.push(ev("ns.ready", &[("node", json!(this)), ("c", json!(c)), ("d", json!(i64::from(el)))]));
+                evs.push(ev("tb.ready", &[("node", json!(this)), ("c", json!(c)), ("d", json!(i64::from(el)))]));
                 if el {
                     evs.push(ev("obs.ready", &[("node", json!(this)), ("c", json!(c))]));
                 }
@@ -181,7 +181,7 @@ fn table_run(this: &'static str, sess: &[TSess], ops: &[(usize, u8)]) -> Vec<Val
         // queries after every step: the reply a session with each (peer, nonce) would get, each
         // session's candidate verdict, and what GetSessions would list
         for (j, s) in sess.iter().enumerate() {
-            evs.push(ev("ns.check", &[("node", json!(this)), ("peer", json!(s.peer)), ("nonce", json!(s.nonce)), ("reply", json!(st.check(s.peer, s.nonce)))]));
+            evs.push(ev("tb.check", &[("node", json!(this)), ("peer", json!(s.peer)), ("nonce", json!(s.nonce)), ("reply", json!(st.check(s.peer, s.nonce)))]));
             if let Some(p) = pid[j] {
                 evs.push(ev("tb.cc", &[("node", json!(this)), ("c", json!(label(j))), ("reply", json!(st.check_candidate(p)))]));
             }
@@ -448,6 +448,9 @@ pub fn dfs_scenarios() -> Vec<Scenario> {
         // an outsider claiming B's name next to the real link
         Scenario { dials: vec![d('B', 1, 0, 0), d('S', 1, 0, 1)] },
         Scenario { dials: vec![d('A', 1, 0, 0), d('X', 2, 0, 1)] },
+        // the outsider's claim (lower nonce, registered first) is on the table when the real peers connect
+        Scenario { dials: vec![d('S', 1, 0, 0), d('B', 2, 20, 1)] },
+        Scenario { dials: vec![d('S', 0, 0, 0), d('A', 1, 20, 1)] },
     ]
 }
 
